@@ -12,5 +12,6 @@ CONSTANTS
   ScsSids <- SidClasses
   ReaderScsAnySid = TRUE
   LazyFlushTypes = {}
+  NoSharedState = TRUE
 INVARIANTS NoDesync HsExact Emit
 CHECK_DEADLOCK FALSE
